@@ -509,34 +509,49 @@ def pm6_multiple(r, R):
     arms = {"existing": mir.variant_target(sw, tp, "Some"), "new": mir.variant_target(sw, tp, "None")}
     regions = {k: (tp.reach_from(v) if v is not None else set()) for k, v in arms.items()}
     excl = {"existing": regions["existing"] - regions["new"], "new": regions["new"] - regions["existing"]}
+    common = (regions["existing"] & regions["new"])
+    ok_blocks = [s_.bb for s_ in tp.assigns() if s_.node["place"]["l"] == 0 and s_.node["rv"]["k"] == "agg" and s_.node["rv"]["variant"] == "Ok"]
+
+    def site_guard(c, region):
+        deps = {(a, s_) for (a, s_) in tp.transitive_control_deps(c.bb) if a in region}
+        cont = [(a, s_) for (a, s_) in deps if _is_contains_edge(tp, (a, s_), contains)]
+        others = [(a, s_) for (a, s_) in deps if (a, s_) not in cont and not _is_variant_split(tp, a)]
+        true_edge = bool(cont) and all(_contains_truth(tp, e) for e in cont)
+        name_ok = False
+        for (a, s_) in cont:
+            cc = strip(term_of(tp, tp.blocks[a]["term"]["op"]))
+            nm = strip(cc[2][1], mir.VALUE_PRESERVING)
+            name_ok = _is_tag_name(tp, nm, R.tp_param["event"]) or _name_var(tp, cc[2][1], R) or _is_built_childs_name(tp, R, nm, rc[0])
+        return cont, others, true_edge and name_ok
+
     for path, blocks in excl.items():
         here = [c for c in sm if c.bb in blocks]
-        ok_a = len(here) == 1
-        why = "%d set_multiple call(s) on the %s-child path" % (len(here), path)
-        ok_b = False
-        if ok_a:
-            c = here[0]
-            deps = {(a, s) for (a, s) in tp.transitive_control_deps(c.bb) if a in blocks}
-            cont = [(a, s) for (a, s) in deps if _is_contains_edge(tp, (a, s), contains)]
-            others = [(a, s) for (a, s) in deps if (a, s) not in cont and not _is_variant_split(tp, a)]
-            true_edge = cont and all(_contains_truth(tp, e) for e in cont)
-            # the name tested is this tag's name
-            name_ok = False
-            for (a, s) in cont:
-                cc = strip(term_of(tp, tp.blocks[a]["term"]["op"]))
-                name_ok = _is_tag_name(tp, strip(cc[2][1], mir.VALUE_PRESERVING), R.tp_param["event"]) or _name_var(tp, cc[2][1], R)
-            ok_a = bool(cont) and true_edge and name_ok
-            ok_b = ok_a and not others
+        shared = [c for c in sm if c.bb in common]
+        ok_a = ok_b = False
+        site = rc[0]
+        if len(here) == 1 and not shared:
+            cont, others, good = site_guard(here[0], blocks)
+            ok_a, ok_b, site = good, good and not others, here[0]
             why = "set_multiple is control dependent on seen.contains(tag name) == true%s" % ("" if not others else " AND on further tests at %s" % [mir.Site(tp, a, None).loc() for a, _ in others]) if cont else \
                 "set_multiple is not guarded by the seen-list membership test"
-        ob(r, "PM6a.repeat-marks-multiple", ("C01", "C03"), "%s: %s-child path" % (tp.name, path), ok_a, why,
-           here[0] if here else rc[0], "PM6a|%s" % path)
+        elif not here and len(shared) == 1:
+            # one guarded site after the two paths joined: the membership test must lie on every Ok path
+            cont, others, good = site_guard(shared[0], common)
+            test_blocks = {a for (a, _) in cont}
+            on_every_path = bool(test_blocks) and bool(ok_blocks) and all(any(tp.dominates(tb, ob_) for tb in test_blocks) for ob_ in ok_blocks)
+            ok_a, ok_b, site = good and on_every_path, good and on_every_path and not others, shared[0]
+            why = "one set_multiple after both paths joined, control dependent on seen.contains(name of the child being built) == true and passed by every Ok path" if ok_a else \
+                "shared set_multiple: guard ok=%s, on every Ok path=%s" % (good, on_every_path)
+        else:
+            why = "%d set_multiple call(s) on the %s-child path, %d after the join" % (len(here), path, len(shared))
+        ob(r, "PM6a.repeat-marks-multiple", ("C01", "C03"), "%s: %s-child path" % (tp.name, path), ok_a, why, site, "PM6a|%s" % path)
         if ok_a:
             ob(r, "PM6b.multiple-only-on-repeat", ("C03",), "%s: %s-child path" % (tp.name, path), ok_b, why if not ok_b else
-               "set_multiple is reached only through the membership test", here[0], "PM6b|%s" % path)
-        # target of set_multiple is the child being (re)built
-    stray = [c for c in sm if c.bb not in excl["existing"] and c.bb not in excl["new"]]
-    ob(r, "PM6b.no-unconditional-multiple", ("C03",), tp.name, not stray, "no set_multiple outside the two guarded sites" if not stray else
+               "set_multiple is reached only through the membership test", site, "PM6b|%s" % path)
+    stray = [c for c in sm if c.bb not in excl["existing"] and c.bb not in excl["new"] and c.bb not in common]
+    if len([c for c in sm if c.bb in common]) > 1:
+        stray += [c for c in sm if c.bb in common][1:]
+    ob(r, "PM6b.no-unconditional-multiple", ("C03",), tp.name, not stray, "no set_multiple outside the guarded site(s)" if not stray else
        "set_multiple also called at %s" % [c.loc() for c in stray], (stray or [rc[0]])[0], "PM6b|stray")
     # PM7 increment on the existing path before recursion
     inc = [c for c in tp.calls() if cname(c.node).endswith("Element::increment") and c.bb in excl["existing"]]
@@ -550,6 +565,20 @@ def pm6_multiple(r, R):
        "a new child is incremented", (inc_new or [rc[0]])[0], "PM7|new")
     R.tp_excl = excl
     R.tp_rc = rc[0]
+
+
+def _is_built_childs_name(tp, R, nm, rc):
+    """nm == <child being built>.name, the child deriving from the removed child or from Element::new(tag name, ..)"""
+    if not (nm[0] == "proj" and nm[2] and nm[2][-1] != "*" and nm[2][-1][0] == "f" and nm[2][-1][3] == "name"):
+        return False
+    base = nm[1]
+    if base[0] != "local":
+        return False
+    org = tp.origins({"l": base[1], "p": []}, transparent=lambda n: n is not rc.node and not cname(n).endswith("Element::new"))
+    from_removed = ("call", rc) in org
+    news = [o for o in org if o[0] == "call" and cname(o[1].node).endswith("Element::new")]
+    new_ok = all(_name_var(tp, term_of(tp, o[1].node["args"][0]), R) for o in news)
+    return (from_removed or bool(news)) and new_ok and not any(o[0] == "call" and o not in news and o != ("call", rc) for o in org)
 
 
 def _is_variant_split(b, a):
@@ -1193,13 +1222,19 @@ def pm_reinsert(r, R):
         ok = ok and all(x in (("arg", R.tp_param["root"]), ("local", R.tp_param["root"])) for x in rets)
     ob(r, "PM15.child-reinserted", ("C01", "C03", "C06"), tp.name, ok, why, adds[0] if adds else mir.line_of(tp.span), "PM15|reinsert")
     # recursion result replaces the child
+    all_rec = [c for c in tp.calls() if c.node["callee"].get("path") == R.el.name]
     for path, blocks in R.tp_excl.items():
-        rec = [c for c in tp.calls() if c.node["callee"].get("path") == R.el.name and c.bb in blocks]
+        rec = [c for c in all_rec if c.bb in blocks]
+        region = blocks
+        if not rec:
+            # one recursive parse after the two paths joined
+            rec = [c for c in all_rec if c.bb not in R.tp_excl["existing"] and c.bb not in R.tp_excl["new"]]
+            region = set(tp.reachable()) - R.tp_excl["existing"] - R.tp_excl["new"]
         okr = len(rec) == 1
         why = "%d recursive parse(s) on the %s-child path" % (len(rec), path)
         if okr:
             c = rec[0]
-            g = guards_of(tp, c.bb, within=blocks)
+            g = guards_of(tp, c.bb, within=region)
             rd_ok = len(g) == 1 and g[0][0] == "enum" and g[0][3] == "Some" and g[0][2] == ("arg", R.tp_param["reader"])
             child_in = tp.origins(c.node["args"][1], transparent=lambda n: n is not R.tp_rc.node and not cname(n).endswith("Element::new"))
             src_ok = ("call", R.tp_rc) in child_in if path == "existing" else any(o[0] == "call" and cname(o[1].node).endswith("Element::new") for o in child_in)
